@@ -34,6 +34,11 @@
 (*                       be created the cache file is written in place,    *)
 (*                       removed again by a deferred clean-up unless the   *)
 (*                       run completed - which a kill never executes       *)
+(*   "ScanLeftovers"     (a seeded change) a run that finds no cache file  *)
+(*                       under its own name also accepts any other file of *)
+(*                       the cache directory that starts with the right    *)
+(*                       hash line - such as the temporary file a killed   *)
+(*                       run left behind                                   *)
 (* tempOK: whether a temporary file can be created next to the cache file  *)
 (* (its name is longer than the cache file's: for binary names of 240 and  *)
 (* more characters it exceeds NAME_MAX while the cache file's does not).   *)
@@ -67,7 +72,9 @@ Init ==
 \* os.Open + read 64 bytes + compare with the hash of the binary
 Compare ==
   /\ pc = "start"
-  /\ IF cache.hash = "cur" THEN pc' = "use" /\ used' = cache.body ELSE pc' = "create" /\ UNCHANGED used
+  /\ IF cache.hash = "cur" THEN pc' = "use" /\ used' = cache.body
+     ELSE IF "ScanLeftovers" \in Dev /\ tmp.hash = "cur" THEN pc' = "use" /\ used' = tmp.body
+     ELSE pc' = "create" /\ UNCHANGED used
   /\ UNCHANGED <<cache, tmp, buf, sent, where>> /\ Keep
 \* os.Create / os.CreateTemp: an empty file
 Create ==
